@@ -1510,6 +1510,10 @@ def finish(ctx: Ctx, t0: float, spec: Dict[str, Any], extra_cov: Optional[Dict[s
         "functions_in_package": len(ctx.repo.funcs),
         "classes_in_package": len(ctx.repo.classes),
         "source_digest": ctx.repo.digest(),
+        "canonical_form": {"passes": ["undo_renames", "strip_inert", "compiled_regexes", "function_aliases", "numpy_idioms", "paired_names",
+                                      "literal_forms", "items_loops", "inline_new_helpers", "structure_guards", "forward_single_use_temps",
+                                      "inline_adjacent_temps", "orient_comparisons", "keywords_to_positional"],
+                           "helpers_spliced_into_callers": ctx.repo.inlined, "functions_given_their_reference_name_back": ctx.repo.renamed},
         "repo_root": ctx.repo.root,
         "site_counts": ctx.counters,
         "known_findings_matched": len(kf),
